@@ -3,7 +3,7 @@
 use crate::model::*;
 use proptest::prelude::*;
 
-pub fn line_spec() -> impl Strategy<Value = LineSpec> {
+pub fn line_spec() -> impl Strategy<Value = LineSpec> + Clone {
     (
         prop_oneof![3 => 0u8..HOSTILE_FROM, 2 => HOSTILE_FROM..N_STYLES],
         prop_oneof![3 => Just(0u8), 2 => 0u8..6],
@@ -11,7 +11,7 @@ pub fn line_spec() -> impl Strategy<Value = LineSpec> {
         .prop_map(|(style, indent)| LineSpec { style, indent })
 }
 
-pub fn line_specs(max: usize) -> impl Strategy<Value = Vec<LineSpec>> {
+pub fn line_specs(max: usize) -> impl Strategy<Value = Vec<LineSpec>> + Clone {
     proptest::collection::vec(line_spec(), 1..=max)
 }
 
@@ -29,7 +29,7 @@ pub fn ai_actor() -> impl Strategy<Value = Actor> {
 }
 
 /// edits of the strict (R1) regime: unique lines, no reordering
-pub fn edit_r1() -> impl Strategy<Value = Edit> {
+pub fn edit_r1() -> impl Strategy<Value = Edit> + Clone {
     prop_oneof![
         6 => (any::<u16>(), line_specs(4)).prop_map(|(pos, lines)| Edit::Insert { pos, lines }),
         2 => (any::<u16>(), 1u8..4).prop_map(|(pos, count)| Edit::Delete { pos, count }),
@@ -45,7 +45,7 @@ pub fn edit_r1() -> impl Strategy<Value = Edit> {
 
 /// edits including fillers and end-of-line changes (R2 regime; judged weakly
 /// where ambiguous)
-pub fn edit_r2() -> impl Strategy<Value = Edit> {
+pub fn edit_r2() -> impl Strategy<Value = Edit> + Clone {
     prop_oneof![
         12 => edit_r1(),
         3 => (any::<u16>(), 0u8..6, 1u8..3).prop_map(|(pos, kind, count)| Edit::InsertFiller { pos, kind, count }),
